@@ -277,6 +277,7 @@ func randomLog(c *hx.Ctx, r *hx.Rng, logLen int) {
 	u := metax.NewUniverse(r.Fork())
 	u.Modelled = true
 	in := metax.NewInst()
+	u.State = in.Data
 	t := newTracker(c)
 	c.Emit("reset", "ok")
 	var pro []metax.Cmd
@@ -344,6 +345,7 @@ func tooManyGroups(in *metax.Inst) bool {
 func allKindsLog(c *hx.Ctx, r *hx.Rng, logLen int) {
 	u := metax.NewUniverse(r.Fork())
 	in := metax.NewInst()
+	u.State = in.Data
 	t := newTracker(c)
 	var pro []metax.Cmd
 	if r.Chance(90) {
@@ -390,8 +392,10 @@ func hasOwnerlessShard(in *metax.Inst) bool {
 	return false
 }
 
-// clauses of WF that hold whatever the time layout of the groups is
-var layoutFree = map[string]bool{"ids": true, "counters": true, "refs": true, "default": true}
+// clauses of WF that hold whatever the time layout of the groups is (`ptview` is left out: the
+// unmodelled UpdatePtInfo / RemoveNode / DeleteDataNode take partition owners and node ids from
+// the HA manager as they come, the generator's arbitrary ones leave owners that do not exist)
+var layoutFree = map[string]bool{"ids": true, "counters": true, "refs": true, "default": true, "users": true}
 
 func (t *tracker) stepOracleOnly(in *metax.Inst, cmd metax.Cmd) bool {
 	c := t.c
